@@ -35,7 +35,13 @@ fn gen_lines(rng: &mut Rng, kind: u64, id_base: u64, allow_long: bool) -> Vec<St
     let mut out = vec![];
     for i in 0..n {
         let id = id_base + i;
-        let text_len = if allow_long && rng.chance(1, 25) { END_SCAN_LOOKAHEAD as usize + rng.below(3000) as usize } else { rng.below(9) as usize };
+        // 1 line in 25 is longer than one, two or three end-scan lookahead windows (16 KiB each), so
+        // that the terminator search needs one or several follow-up GETs
+        let text_len = if allow_long && rng.chance(1, 25) {
+            END_SCAN_LOOKAHEAD as usize * rng.range(1, 3) as usize + rng.below(3000) as usize
+        } else {
+            rng.below(9) as usize
+        };
         let text: String = (0..text_len).map(|j| (b'a' + ((id as usize + j) % 26) as u8) as char).collect();
         out.push(match kind {
             1 => format!("{id},{text}"),
